@@ -9,6 +9,7 @@ package main
 import (
 	"fmt"
 	"math"
+	"strings"
 	"time"
 
 	"github.com/0xReLogic/Helios/internal/config"
@@ -132,6 +133,7 @@ func runLBDist(x *X) {
 	}
 
 	// ---- history ------------------------------------------------------------
+	plainTraffic := 0
 	nHist := c.Intn(6, "nhist")
 	freshPool := nHist == 0
 	for i := 0; i < nHist && !x.dead; i++ {
@@ -248,6 +250,15 @@ func runLBDist(x *X) {
 				oneReq("192.0.2.1")
 			}
 			hist = append(hist, fmt.Sprintf("traffic(%d)", k))
+			plainTraffic += k
+		}
+	}
+	// a history of nothing but plain traffic leaves the strategy where the documented algorithm
+	// (nginx's smooth weighted round-robin) is after that many picks from a fresh cycle
+	plainHistory := true
+	for _, e := range hist {
+		if !strings.HasPrefix(e, "traffic(") || strings.Contains(e, "+") {
+			plainHistory = false
 		}
 	}
 	// least_connections scans the pool in order: an ejected backend (no connections, so the
@@ -513,6 +524,18 @@ func runLBDist(x *X) {
 						worst = dev
 					}
 					if dev > bound+1e-9 {
+						if plainHistory && tag == "" && sameAsSmoothWRR(func() (ns []string, ws []int) {
+							for _, mm := range members {
+								ns, ws = append(ns, mm.name), append(ws, eff(mm.weight))
+							}
+							return
+						}, plainTraffic, seqServed) {
+							// Helios picked, request for request, what the documented algorithm picks from a
+							// fresh cycle: the excess over the stated bound is the algorithm's own discrepancy
+							// for this weight vector (known finding 33), not a fault in its implementation
+							x.Violate("C05", "C05/wrr-share-bound{smooth-wrr-itself}", "weighted_round_robin picked exactly what nginx's smooth weighted round-robin picks from a fresh cycle, and that sequence leaves the stated bound: over requests %d..%d backend %s (weight %d) served %d, proportional share %.2f, deviation %.2f > bound %.2f (members %v, eligible weight %d, history %v)", a, bnd, m.name, eff(m.weight), seen[m.name], float64(mlen)*float64(eff(m.weight))/float64(wElig), dev, bound, members, wElig, hist)
+							break outer
+						}
 						x.Violate("C05", "C05/wrr-share-bound"+brace(tag), "weighted_round_robin: over requests %d..%d backend %s (weight %d) served %d, proportional share %.2f, deviation %.2f > bound %.2f (members %v, eligible weight %d, history %v)", a, bnd, m.name, eff(m.weight), seen[m.name], float64(mlen)*float64(eff(m.weight))/float64(wElig), dev, bound, members, wElig, hist)
 						break outer
 					}
@@ -597,4 +620,31 @@ func brace(tag string) string {
 		return ""
 	}
 	return "{" + tag[1:] + "}"
+}
+
+// sameAsSmoothWRR reports whether served is what nginx's smooth weighted round-robin picks, from a
+// fresh cycle over members in their configured order, for picks skip+1 .. skip+len(served). It is
+// used to tell a discrepancy of the documented algorithm itself from a fault in Helios'
+// implementation of it -- never to decide whether a run violates the property.
+func sameAsSmoothWRR(pool func() ([]string, []int), skip int, served []string) bool {
+	names, ws := pool()
+	cw := make([]int, len(ws))
+	total := 0
+	for _, w := range ws {
+		total += w
+	}
+	for t := 0; t < skip+len(served); t++ {
+		best := -1
+		for i, w := range ws {
+			cw[i] += w
+			if best < 0 || cw[i] > cw[best] {
+				best = i
+			}
+		}
+		cw[best] -= total
+		if t >= skip && names[best] != served[t-skip] {
+			return false
+		}
+	}
+	return true
 }
